@@ -551,6 +551,8 @@ func c04Exec(c fw.Case) *fw.Result {
 		c04Probe(res, c)
 	case "counts":
 		c04CountsCase(res, c)
+	case "collisions":
+		c04Collisions(res, c)
 	case "globals":
 		c04Globals(res, c)
 	case "random":
@@ -819,6 +821,11 @@ func c04Cases(tier string, seed uint64) []fw.Case {
 			cs = append(cs, fw.Case{Kind: "counts", Seed: gen.Sub(seed, "c04counts", i), S: map[string]string{"slot": slot}, P: map[string]int64{"i": int64(i)}})
 		}
 	}
+	// pairs of distinct strings with equal 32-bit fingerprints (12 functions), planted as
+	// neighbouring tag values / keys / roles / user names
+	for ri, root := range []string{"osm", "osmChange"} {
+		cs = append(cs, fw.Case{Kind: "collisions", Seed: gen.Sub(seed, "xmlcoll", ri), S: map[string]string{"root": root}})
+	}
 	// process-global settings
 	for gi := range xmlGlobals {
 		vals := int64(10)
@@ -867,6 +874,7 @@ func init() {
 			"the scanner reads the marshalled text through a conforming but unhelpful io.Reader chosen by the text (whole, one byte at a time, half of the request, random chunks, last data together with io.EOF, zero-length reads with nil error in between); optional times are drawn from a small pool half of the time so that committed == timestamp, update timestamp == parent timestamp, closed_at == created_at, date_closed == date_created and equal times across objects are frequent (all times stay UTC, as the property's quantifier says)",
 			"the scanner is driven in six legal consumer styles chosen by the text (canonical; Err after every Scan; Err once after the k-th Scan; Object twice; Object not fetched for every third object, those positions are not compared; Scan called again after it returned false): read-only accessors and legal call orders must not change what is delivered; the value Err returns in mid-scan is not judged",
 			"element counts: containers (OSM, each osmChange block, old/new of a diff action) with 0,1,2,1023,1024,1025,2047,2048,2049,3072,4096 nodes / ways / relations of cheap elements round-trip in full; process globals: the same expectations hold with time.Local set to +05:30 / -05:00 / a DST zone / +14:00, GOMAXPROCS=1 and a de_DE locale environment (restored after the case; no goroutines)",
+			"collisions: pairs of different equal-length strings with equal 32-bit fingerprints (12 common hash functions; found by a deterministic birthday search at first use) are planted as neighbouring tag values, tag keys, member roles and user names; they are ordinary strings and must come back as written",
 			"the scanner comparison matches delivered objects to the value through the positions an independent tokenizer finds in the text; it is skipped for a text that already failed the vocabulary check",
 		},
 		Cases:   c04Cases,
